@@ -120,6 +120,8 @@ pub struct Runner {
     pub lru_cap: usize,
     pub violations: Vec<String>,
     pub writes: u64,
+    /// correctly rejected writes to never-change fields / never-change synthetic writes
+    pub rejections: u64,
 }
 
 #[derive(Debug, Clone, PartialEq, Eq)]
@@ -145,6 +147,7 @@ impl Runner {
             lru_cap: 4,
             violations: Vec::new(),
             writes: 0,
+            rejections: 0,
         }
     }
 
@@ -217,6 +220,8 @@ impl Runner {
                             self.violations.push(format!(
                                 "unexpected panic on write in{cell}.{field}: {m} (frozen={frozen})"
                             ));
+                        } else {
+                            self.rejections += 1;
                         }
                         WriteResult::Panicked(cls, m)
                     }
@@ -240,6 +245,8 @@ impl Runner {
                         if *d != Dur::Never || cls != PanicClass::NeverChange {
                             self.violations
                                 .push(format!("unexpected panic on synthetic_write({d:?}): {m}"));
+                        } else {
+                            self.rejections += 1;
                         }
                         WriteResult::Panicked(cls, m)
                     }
